@@ -324,33 +324,22 @@ def sel_bbox(dset, lons, lats, tolerance=0.0, dset_lons=None, dset_lats=None):
         dset, lons=lons, lats=lats, dset_lons=dset_lons, dset_lats=dset_lats
     )
 
-    minlon = min(coords.lons) - tolerance
+    # The box is defined in the convention of the query, station longitudes are
+    # expressed in that convention (on a copy) before testing which ones are inside
+    query_lons = np.array(lons, dtype=float)
+    station_lons = np.array(coords.dset_lons, dtype=float)
+    if not coords.consistent:
+        station_lons = coords._swap_longitude_convention(station_lons)
+    minlon = min(query_lons) - tolerance
     minlat = min(coords.lats) - tolerance
-    maxlon = max(coords.lons) + tolerance
+    maxlon = max(query_lons) + tolerance
     maxlat = max(coords.lats) + tolerance
-    if not (coords._is_360(coords.dset_lons) and not coords.consistent):
-        station_ids = np.where(
-            (coords.dset_lons >= minlon)
-            & (coords.dset_lats >= minlat)
-            & (coords.dset_lons <= maxlon)
-            & (coords.dset_lats <= maxlat)
-        )[0]
-    else:
-        station_ids = np.where(
-            (coords.dset_lons >= maxlon)
-            & (coords.dset_lats >= minlat)
-            & (coords.dset_lons <= 360)
-            & (coords.dset_lats <= maxlat)
-        )[0]
-        station_ids = np.append(
-            station_ids,
-            np.where(
-                (coords.dset_lons >= 0)
-                & (coords.dset_lats >= minlat)
-                & (coords.dset_lons <= minlon)
-                & (coords.dset_lats <= maxlat)
-            )[0],
-        )
+    station_ids = np.where(
+        (station_lons >= minlon)
+        & (coords.dset_lats >= minlat)
+        & (station_lons <= maxlon)
+        & (coords.dset_lats <= maxlat)
+    )[0]
 
     if station_ids.size == 0:
         raise ValueError(
